@@ -264,7 +264,10 @@ def gen_ops(rng, sc, length, kinds):
                     T = sorted(rng.choice(far))
             ops.append(dict(op="cache", inst=inst, mode=mode, T=T, args=rng.choice([(1,), (2, 3), (5, 6)]),
                             restart=rng.choice(["same", "whole"]), omit_default=rng.random() < 0.5,
-                            omit_required=rng.random() < 0.35, slot=rng.choice([None, 0, 0, 1])))
+                            omit_required=rng.random() < 0.35, slot=rng.choice([None, 0, 0, 1]),
+                            # the restarted execution may itself checkpoint — into the file it started from, or another one —
+                            # and a further restart then starts from THAT file
+                            writeback=rng.choice([None, None, "same", "same", "other"])))
     return ops
 
 
@@ -511,12 +514,48 @@ def run_history(sc, ops):
                 if op.get("omit_required") and str(n) in rec["file"] and (len(op["args"]) < 2 or str(n + 1) in rec["file"]):
                     rargs = ()      # the REQUIRED argument is in the file too: the restart need not pass it again
                 rec2["op"]["restart_args"] = list(rargs)
-                rec2["out"] = attempt(lambda: d.executor(from_cache=path, **kw2)(*rargs))
+                wb = op.get("writeback")
+                wpath, wslot = None, None
+                if wb == "same":
+                    wpath, wslot = path, mslot
+                elif wb == "other":
+                    fd2, wpath = tempfile.mkstemp(suffix=".pkl", prefix="twzcache")
+                    os.close(fd2)
+                    os.remove(wpath)
+                    wslot = 100000 + len(lines)
+                kw3 = dict(kw2, cache_in=wpath) if wpath else kw2
+                rec2["op"]["writeback"] = wb
+                rec2["out"] = attempt(lambda: d.executor(from_cache=path, **kw3)(*rargs))
                 rec2["entered"], rec2["dups"] = counters_delta(before2, tag, n)
                 rec2["first_value"] = rec["out"][1]
-                rec2["line"] = len(lines); lines.append("O %d xrestart %d %d %s %d %s" % (
-                    inst, mslot, len(sel2), " ".join(map(str, sel2)), len(rargs), " ".join(enc(a) for a in rargs)))
+                rec2["line"] = len(lines); lines.append("O %d xrestart %d %d %s %d %s%s" % (
+                    inst, mslot, len(sel2), " ".join(map(str, sel2)), len(rargs), " ".join(enc(a) for a in rargs),
+                    (" W %d" % wslot) if wpath else ""))
                 records.append(rec2)
+                if wpath and rec2["out"][0] == "OK":
+                    try:
+                        with open(wpath, "rb") as f:
+                            content2 = pickle.load(f)   # noqa: S301
+                        cached2 = sorted(i for i in range(n) if "n%d" % i in content2)
+                        rec2["file"] = {str(i): render(content2["n%d" % i]) for i in cached2}
+                        for j, u in zip((n, n + 1), d.input_uxns):
+                            if u.id in content2:
+                                rec2["file"][str(j)] = render(content2[u.id])
+                        # third stage: a restart of the whole DAG from the file the restarted execution wrote
+                        before3 = dict(COUNTS)
+                        rec3 = dict(op=dict(op="restart", inst=inst, sel=list(range(n)), cached=cached2, args=list(rargs), mode="stage3",
+                                            restart="whole", restart_args=list(rargs)))
+                        rec3["out"] = attempt(lambda: d.executor(from_cache=wpath)(*rargs))
+                        rec3["entered"], rec3["dups"] = counters_delta(before3, tag, n)
+                        rec3["line"] = len(lines); lines.append("O %d xrestart %d %d %s %d %s" % (
+                            inst, wslot, n, " ".join(map(str, range(n))), len(rargs), " ".join(enc(a) for a in rargs)))
+                        records.append(rec3)
+                    finally:
+                        if wb == "other":
+                            try:
+                                os.remove(wpath)
+                            except OSError:
+                                pass
             finally:
                 if slot is None:
                     try:
